@@ -376,7 +376,10 @@ func (ss *Package) messageProperties(parent RootSchema, src protoreflect.Message
 				nameInParent: "[]",
 			}
 
-			childExt := protoFieldExtensions{}
+			// list rules are written next to the item type, on the repeated field
+			childExt := protoFieldExtensions{
+				list: ext.list,
+			}
 
 			repeatedValidate := ext.validate.GetRepeated()
 			if repeatedValidate != nil {
